@@ -4,7 +4,7 @@ import Cgm.Model.Rot
 set_option linter.unusedSectionVars false
 namespace Cg.Trace.C09
 open Cg Cg.Gen.C09
-variable {K : Type} [Field K] [Transc K] [FRem K] [Lits K]
+variable {K : Type} [Field K] [LinearOrder K] [Transc K] [FRem K] [Lits K]
 attribute [local simp] M4.lookToRh M4.lookToLh M4.lookAtRh M4.lookAtLh M3.lookToLh M3.lookToRh
   V3.normalize V3.normalizeTo V3.magnitude
 
@@ -20,4 +20,35 @@ theorem t_m3_look_to_lh (d u : V3 K) :
     t_m3_look_to_lh (envL (d.toList ++ u.toList)) = .okS (M3.lookToLh d u).toList := by tr_auto_nf
 theorem t_m3_look_to_rh (d u : V3 K) :
     t_m3_look_to_rh (envL (d.toList ++ u.toList)) = .okS (M3.lookToRh d u).toList := by tr_auto_nf
+
+/-! `Matrix2::look_at`: one comparison, `up.y * dir.x ≤ up.x * dir.y`, chooses which perpendicular
+of the normalised direction becomes the second column -/
+attribute [local simp] M2.lookAt M2.lookAtStable V2.normalize V2.normalizeTo V2.magnitude M3.lookAt2Lh M3.lookAt2Rh
+  M3.lookAtLh M3.lookAtRh Basis3.lookAt
+theorem t_m2_look_at_flip (d u : V2 K) (h : u.y * d.x ≤ u.x * d.y) :
+    t_m2_look_at_flip (envL (d.toList ++ u.toList)) = .okG (M2.lookAt d u).toList [.le (u.y * d.x) (u.x * d.y) true] := by
+  simp [M2.lookAt, M2.lookAtStable, h]; tr_auto_nf
+theorem t_m2_look_at_noflip (d u : V2 K) (h : ¬ u.y * d.x ≤ u.x * d.y) :
+    t_m2_look_at_noflip (envL (d.toList ++ u.toList)) = .okG (M2.lookAt d u).toList [.le (u.y * d.x) (u.x * d.y) false] := by
+  simp [M2.lookAt, M2.lookAtStable, h]; tr_auto_nf
+/-- `Transform<Point2> for Matrix3`: `look_at_lh` looks along `center - eye`, `look_at_rh` along `eye - center` -/
+theorem t_m3_tlook_at2_lh (e c : P2 K) (u : V2 K) (h : ¬ u.y * (c - e).x ≤ u.x * (c - e).y) :
+    t_m3_tlook_at2_lh (envL (e.toList ++ c.toList ++ u.toList)) =
+      .okG (M3.lookAt2Lh e c u).toList [.le (u.y * (c - e).x) (u.x * (c - e).y) false] := by
+  simp only [M3.lookAt2Lh, M2.lookAt, h, decide_false]; tr_auto_nf
+theorem t_m3_tlook_at2_rh (e c : P2 K) (u : V2 K) (h : u.y * (e - c).x ≤ u.x * (e - c).y) :
+    t_m3_tlook_at2_rh (envL (e.toList ++ c.toList ++ u.toList)) =
+      .okG (M3.lookAt2Rh e c u).toList [.le (u.y * (e - c).x) (u.x * (e - c).y) true] := by
+  simp only [M3.lookAt2Rh, M2.lookAt, h, decide_true]; tr_auto_nf
+/-- `Transform<Point3> for Matrix3` and `Matrix4`: the direction is `center - eye` -/
+theorem t_m3_tlook_at_lh (e c : P3 K) (u : V3 K) :
+    t_m3_tlook_at_lh (envL (e.toList ++ c.toList ++ u.toList)) = .okS (M3.lookAtLh e c u).toList := by tr_auto_nf
+theorem t_m3_tlook_at_rh (e c : P3 K) (u : V3 K) :
+    t_m3_tlook_at_rh (envL (e.toList ++ c.toList ++ u.toList)) = .okS (M3.lookAtRh e c u).toList := by tr_auto_nf
+theorem t_m4_tlook_at_lh (e c : P3 K) (u : V3 K) :
+    t_m4_tlook_at_lh (envL (e.toList ++ c.toList ++ u.toList)) = .okS (M4.lookAtLh e c u).toList := by tr_auto_nf
+theorem t_m4_tlook_at_rh (e c : P3 K) (u : V3 K) :
+    t_m4_tlook_at_rh (envL (e.toList ++ c.toList ++ u.toList)) = .okS (M4.lookAtRh e c u).toList := by tr_auto_nf
+theorem t_b3_look_at (d u : V3 K) :
+    t_b3_look_at (envL (d.toList ++ u.toList)) = .okS (Basis3.lookAt d u).mat.toList := by tr_auto_nf
 end Cg.Trace.C09
